@@ -997,6 +997,8 @@ def c07e(chk):
         chk.ob("C07.e", "read::Builder::read/whole-input-then-detect", len(rte) == 2 and same and bool(det) and len(fed) == 2 and all(fed), r.loc(),
                "both transports read_to_end into one buffer; detection and both readers see that complete buffer (readers fed by it: %s)" % fed)
         # nothing else touches the buffer between reading and parsing (no trimming, truncation, sub-slicing)
+        # (views of the whole vector: `raw.as_slice()`, `raw.as_ref()` are `&raw[..]`)
+        WHOLE_VIEWS = ("alloc::vec::Vec::<T, A>::as_slice", "<alloc::vec::Vec<T, A> as core::convert::AsRef<[T]>>::as_ref", "<alloc::vec::Vec<T, A> as core::borrow::Borrow<[T]>>::borrow")
         touch = []
         if raw is not None:
             for b, t in r.calls():
@@ -1009,11 +1011,11 @@ def c07e(chk):
                             continue
                         if callee_is(t["callee"], N.INDEX) and "RangeFull" in " ".join(t["callee"].get("args", [])):
                             continue
-                        if callee_is(t["callee"], N.DEREF):
+                        if callee_is(t["callee"], N.DEREF) or nm in WHOLE_VIEWS:
                             continue
                         touch.append(nm)
         # and the slices handed to the readers / the detector derive from the buffer through deref / [..] / reborrows only
-        ALLOWED = ("std::io::Read::read_to_end", "core::ops::deref::Deref::deref", "core::ops::index::Index::index", "std::io::stdio::Stdin::lock", "std::io::stdio::stdin",
+        ALLOWED = WHOLE_VIEWS + ("std::io::Read::read_to_end", "core::ops::deref::Deref::deref", "core::ops::index::Index::index", "std::io::stdio::Stdin::lock", "std::io::stdio::stdin",
                    "sfs_core::input::Input::open", "core::option::Option::<T>::unwrap_or", "core::ops::try_trait::Try::branch", "alloc::vec::Vec::<T>::new",
                    "core::ops::try_trait::FromResidual::from_residual")
         for b, t in r.calls():
@@ -1221,6 +1223,42 @@ def c16c(chk):
         chk.ob("C16.c", "Shape::elements=product-of-all-axes", ok, se.loc(), "elements() multiplies every axis length (no skip/take)")
 
 
+def _c16d_loop_form(chk, prog, ps):
+    import iters as IT
+    its = [it for it in IT.iterations(prog, ps) if it.kind == "loop" and it.parent is ps and IT.chain_names(it.chain()) == ["split_ascii_whitespace"]]
+    news = [(b, t) for b, t in ps.calls() if "spectrum::Spectrum::<" in callee_name(t["callee"]) and callee_name(t["callee"]).endswith(">::new")]
+    if len(its) != 1 or len(news) != 1:
+        return None
+    it = its[0]
+    nb, nt = news[0]
+    parses = [(b, t) for b, t in it.calls() if (t["callee"].get("path") or "") in ("core::str::traits::FromStr::from_str", "core::str::<impl str>::parse")
+              and "f64" in (callee_name(t["callee"]) + " ".join(t["callee"].get("args", [])) + (t.get("dest_ty") or ""))]
+    pushes = [(b, t) for b, t in it.calls() if callee_name(t["callee"]).split("::")[-1] == "push" and len(t["args"]) == 2]
+    how = "for-loop over %s: " % IT.chain_names(it.chain())
+    if len(parses) != 1 or len(pushes) != 1:
+        return False, how + "expected one parse and one push per token (found %d / %d)" % (len(parses), len(pushes)), it.chain()[-1][1]
+    pb, pt = parses[0]
+    qb, qt = pushes[0]
+    oc = an.option_outcomes(ps, pb)
+    if oc is None:
+        return False, how + "the outcome of the parse is not told apart", it.chain()[-1][1]
+    sb, good, bad = oc
+    token = it.elem_path(pt["args"][0]) == ()
+    vec = an.arg_pointee(ps, qt, 0)
+    value = an.call_dest_local(pt) in ps.slice_locals(qt["args"][1], through_calls=False)[0]
+    pushed_on_ok = an.dominated_by_edge(ps, sb, good, qb)
+    after_bad = ps.reachable_from(bad)
+    fails = it.bb not in after_bad and it.switch_bb not in after_bad and nb not in after_bad
+    only_exit = all(b_ in after_bad or b_ == sb for b_, s_ in it.early_exits())
+    no_skip = [x for x, _ in it.switches()] == [sb]
+    built = vec is not None and not vec[1] and vec[0] in ps.slice_locals(nt["args"][0])[0] and an.dominated_by_edge(ps, it.switch_bb, it.none_t, nb)
+    ok = token and value and pushed_on_ok and fails and only_exit and no_skip and built
+    how += "parses the token=%s, pushes the parsed value=%s on the Ok edge=%s, a bad token leaves without building the spectrum=%s, no other exit=%s, no token skipped=%s, the vector is what Scs::new gets after the last token=%s" % (
+        token, value, pushed_on_ok, fails, only_exit, no_skip, built)
+    chk.fns_analysed.add(ps.path)
+    return ok, how, it.chain()[-1][1]
+
+
 def c16d(chk):
     import iters as IT
     prog = chk.prog
@@ -1237,7 +1275,13 @@ def c16d(chk):
         src = ch[-1][1]
         ty = " ".join(coll[0][1]["callee"].get("args", []))
         ok = adapt == ["map", "split_ascii_whitespace"] and "core::result::Result<alloc::vec::Vec<f64>" in ty
-    chk.ob("C16.d", "parse_scs/all-tokens-collected", ok, ps.loc(), "every whitespace-separated token is parsed and collected (adaptors %s); a bad token fails the whole read" % adapt)
+    if not coll:
+        # the same as a loop: for token in s.split_ascii_whitespace() { match f64::from_str(token) { Ok(v) => values.push(v), Err(e) => return Err(..) } }
+        # followed by Scs::new(values, shape)
+        r_ = _c16d_loop_form(chk, prog, ps)
+        if r_ is not None:
+            ok, adapt, src = r_
+    chk.ob("C16.d", "parse_scs/all-tokens-collected", ok, ps.loc(), "every whitespace-separated token is parsed and collected (adaptors %s); a bad token fails the whole read" % (adapt,))
     rs = chk.fn(TEXT + "read_scs")
     if rs is not None:
         r2s = an.calls(rs, "std::io::Read::read_to_string")
@@ -1286,7 +1330,9 @@ def c16e(chk):
         # from the computed statistics; a header line written before them is not a row
         def fed_by_calculate(t_, through_mutation=False):
             for a_ in t_["args"][1:]:
-                sl_, info_ = ws.slice_locals(a_, mut_calls=through_mutation)
+                # (mutation is followed for the function's own values - a vector filled with push - not through `&mut self`,
+                # which every method call on self would otherwise link to every other)
+                sl_, info_ = ws.slice_locals(a_, mut_calls=(lambda l_: l_ > ws.argc) if through_mutation else False)
                 names_ = [callee_name(x[1]["callee"]) for x in info_["calls"]]
                 if any(n_.endswith("Statistic::calculate") for n_ in names_):
                     return True
@@ -1576,6 +1622,19 @@ def c18b(chk):
                 chk.ob("C18.b", "discarded/%s@%s" % (nm, f.path), key in reviewed, f.loc(b), reviewed.get(key, "the Result of `%s` is never used (let _ = / statement position): an error would be swallowed" % nm))
                 continue
             disc = [u for u in uses if u[1] == "call" and u[2] in DISCARDING]
+            if disc and len(disc) == len(uses) and "std::io::error::Error" not in t["dest_ty"]:
+                # not an I/O result (a number that does not parse): `.ok()` / `.err()` keep the failure as None / Some as long as that
+                # Option is itself looked at (returned, matched, collected); only an Option nobody reads loses it
+                kept = []
+                for u in disc:
+                    if u[2].split("::")[-1] not in ("ok", "err"):
+                        continue
+                    ot = f.term(u[0])
+                    od = an.call_dest_local(ot)
+                    if od == 0 or (od is not None and [x for x in local_uses(f, od)]):
+                        kept.append(u)
+                if len(kept) == len(disc):
+                    disc = []
             if disc and len(disc) == len(uses):
                 chk.ob("C18.b", "discarded-via-%s/%s@%s" % (disc[0][2].split("::")[-1], nm, f.path), key in reviewed, f.loc(b),
                        reviewed.get(key, "the Result of `%s` only flows into `%s`, which drops the error" % (nm, disc[0][2])))
